@@ -65,6 +65,7 @@ type Result struct {
 	AnyMoney   bool
 	HarnessErr string
 	InterKey   string
+	Blocked    bool // the code under test blocked on a lock while another task was parked: case abandoned
 }
 
 func viol(oracle, class, detail string) *core.Violation {
@@ -172,7 +173,15 @@ func Execute(c Case, keepTrace bool, ch chooser) (res Result) {
 			res.AnyMoney = true
 		}
 	}
-	if len(c.Tasks) > 0 {
+	// whether the script calls overdraft() is read off the program itself (a label set at
+	// generation time would go stale when the minimiser drops declarations)
+	c.UsesOD = false
+	for _, v := range c.Prog.Vars {
+		if v.Fn == "overdraft" {
+			c.UsesOD = true
+		}
+	}
+	if len(c.Tasks) > 0 && !c.Tasks[0].Noise {
 		t0 := c.Tasks[0]
 		with := map[string]struct{}{gen.FlagOverdraft: {}}
 		unknown := map[string]struct{}{gen.FlagOverdraft: {}, "experimental-something-else": {}, "": {}}
@@ -279,6 +288,10 @@ func Execute(c Case, keepTrace bool, ch chooser) (res Result) {
 	}()
 	for _, cancel := range cancels {
 		cancel()
+	}
+	if s.blocked.Load() {
+		res.Blocked = true
+		return res
 	}
 	res.Steps, res.Switches, res.Recorded = s.step, s.switches, s.rec
 	for k, v := range s.probes {
@@ -390,6 +403,10 @@ func varyVars(r *rand.Rand, g *gen.G) map[string]string {
 		switch v.Type {
 		case "account":
 			out[v.Name] = g.Accts[r.IntN(len(g.Accts))]
+		case "asset":
+			if r.IntN(2) == 0 {
+				out[v.Name] = gen.AssetPool[r.IntN(len(gen.AssetPool))]
+			}
 		case "number":
 			out[v.Name] = fmt.Sprint(r.IntN(300))
 		case "monetary":
@@ -603,10 +620,25 @@ func Worker(o core.WorkerOpts) *core.Report {
 	l.Rep.Note = o.Mode
 	distinct := &core.HashSet{}
 	inter := &core.HashSet{}
+	noPreempt := false
 	l.Run(func(i int64, caseSeed uint64) {
 		r := core.NewRand(caseSeed)
 		c, ch := genCase(r)
+		if noPreempt {
+			// the code under test takes locks: parking a task at a yield point can block the
+			// others for good, so tasks run to completion one after the other from here on
+			// (repetition, purity, history and flag oracles still apply; interleavings are
+			// left to the free-running race workers)
+			c.Switches = nil
+			ch = newRecorded(nil)
+		}
 		res := Execute(c, false, ch)
+		if res.Blocked {
+			noPreempt = true
+			l.Rep.Reach["cases_abandoned_code_under_test_blocked_on_a_lock"]++
+			l.Rep.Note = o.Mode + "; code under test blocks on locks: sequential fallback after case " + fmt.Sprint(i)
+			return
+		}
 		if _, isPCT := ch.(*pct); isPCT && res.InDomain {
 			// make the case self-contained: keep the switches the plan actually took
 			c.Switches = res.Recorded
